@@ -176,7 +176,8 @@ func VerifC07_LogicCall() {
 		same = queued.Fees.SecurityFee == delivered.Fees.SecurityFee
 		label += "-security-fee"
 	case 7:
-		queued.SenderAddress, delivered.SenderAddress = sym.Bytes("x", 20), sym.Bytes("y", 20)
+		payerLen := []int{20, 32}[sym.Choice("fee-payer-length", 2)] // account addresses are 20 bytes, contract / module-derived ones 32
+		queued.SenderAddress, delivered.SenderAddress = sym.Bytes("x", payerLen), sym.Bytes("y", payerLen)
 		same = bytes.Equal(queued.SenderAddress, delivered.SenderAddress)
 		label += "-fee-payer"
 	case 8:
@@ -374,7 +375,8 @@ func VerifC07_UserContract() {
 		e.same = qm.Fees.SecurityFee == dm.Fees.SecurityFee
 		e.label += "-security-fee"
 	case 6:
-		qm.SenderAddress, dm.SenderAddress = sym.Bytes("x", 20), sym.Bytes("y", 20)
+		payerLen := []int{20, 32}[sym.Choice("fee-payer-length", 2)] // account addresses are 20 bytes, contract / module-derived ones 32
+		qm.SenderAddress, dm.SenderAddress = sym.Bytes("x", payerLen), sym.Bytes("y", payerLen)
 		e.same = bytes.Equal(qm.SenderAddress, dm.SenderAddress)
 		e.label += "-fee-payer"
 	case 7:
@@ -417,7 +419,17 @@ func VerifC07_UploadContract() {
 	}
 	qm, dm := mk(), mk()
 	same, label := true, "upload-contract"
-	switch sym.Choice("field", 4) {
+	switch sym.Choice("field", 6) {
+	case 4: // message without constructor input: the call data must be the bytecode and nothing else
+		qm.ConstructorInput, dm.ConstructorInput = nil, sym.Bytes("extra", 1+sym.Choice("extra-len", 2))
+		same = false
+		label += "-no-constructor-input-trailing-bytes"
+	case 5:
+		qm.ConstructorInput, dm.ConstructorInput = nil, nil
+		n := 1 + sym.Choice("bytecode-len", 3)
+		qm.Bytecode, dm.Bytecode = sym.Bytes("x", n), sym.Bytes("y", n)
+		same = bytes.Equal(qm.Bytecode, dm.Bytecode)
+		label += "-no-constructor-input-bytecode"
 	case 0:
 		n := 1 + sym.Choice("bytecode-len", 3)
 		qm.Bytecode, dm.Bytecode = sym.Bytes("x", n), sym.Bytes("y", n)
